@@ -29,7 +29,7 @@ def main():
         d = os.path.join(FARM, sid)
         shutil.rmtree(d, ignore_errors=True)
         os.makedirs(d)
-        sh(["rsync", "-a", "--exclude", "target", "--exclude", ".git", "/repo/", d + "/repo/"])
+        os.makedirs(d + "/repo"); subprocess.run("git -C /repo archive HEAD | tar -x -C %s/repo" % d, shell=True, check=True)  # HEAD, not the working tree: the official protocol may be patching /repo right now
         r = sh(["patch", "-p1", "-s", "-i", os.path.join(ROOT, "seeded", sid, "patch.diff")], cwd=d + "/repo")
         if r.returncode != 0:
             print("%s: patch failed: %s" % (sid, r.stdout[-300:])); continue
